@@ -58,6 +58,24 @@ def serveAll (sign : Msg → Nat → Sig) : Cache Msg Sig → List (Msg × Nat) 
 def CacheOK (verify : Msg → Sig → Bool) (c : Cache Msg Sig) : Prop :=
   ∀ i s, c = some (i, s) → verify i s = true
 
+/-- one `signV1TreeHead`: the signature handed out verifies over the requested input and the cache stays valid -/
+theorem signHead_ok (sign : Msg → Nat → Sig) (verify : Msg → Sig → Bool) (hsign : ∀ m n, verify m (sign m n) = true)
+    (c : Cache Msg Sig) (i : Msg) (n : Nat) (hc : CacheOK verify c) :
+    verify i (signHead sign c i n).2 = true ∧ CacheOK verify (signHead sign c i n).1 := by
+  unfold signHead
+  cases c with
+  | none =>
+    refine ⟨hsign i n, ?_⟩
+    intro i' s' h; cases h; exact hsign i n
+  | some cs =>
+    obtain ⟨ci, cs⟩ := cs
+    by_cases he : ci = i
+    · simp only [he, if_true]
+      exact ⟨hc i cs (by rw [he]), by rw [← he]; exact hc⟩
+    · simp only [he, if_false]
+      refine ⟨hsign i n, ?_⟩
+      intro i' s' h; cases h; exact hsign i n
+
 /-- **sth_faithful (signature).** Whatever sequence of tree heads is requested (any interleaving of
     handlers sharing the cache), every signature served verifies under the log key over exactly the
     bytes it is served with: a cache hit returns a signature *over the same input*. Assumption: the
@@ -71,20 +89,7 @@ theorem sth_signature_verifies (sign : Msg → Nat → Sig) (verify : Msg → Si
     intro c hc p hp
     obtain ⟨i, n⟩ := r
     simp only [serveAll, List.mem_cons] at hp
-    have key : verify i (signHead sign c i n).2 = true ∧ CacheOK verify (signHead sign c i n).1 := by
-      unfold signHead
-      cases c with
-      | none =>
-        refine ⟨hsign i n, ?_⟩
-        intro i' s' h; cases h; exact hsign i n
-      | some cs =>
-        obtain ⟨ci, cs⟩ := cs
-        by_cases he : ci = i
-        · simp only [he, if_true]
-          exact ⟨hc i cs (by rw [he]), by rw [← he]; exact hc⟩
-        · simp only [he, if_false]
-          refine ⟨hsign i n, ?_⟩
-          intro i' s' h; cases h; exact hsign i n
+    have key := signHead_ok sign verify hsign c i n hc
     rcases hp with rfl | hp
     · exact key.1
     · exact ih _ key.2 p hp
@@ -167,6 +172,61 @@ example : runCache (some (1, 101) : Cache Nat Nat) [.set 2 102, .get 1, .get 2] 
 example : CacheOK (fun (m : Nat) (s : Nat) => s == m + 1) (none : Cache Nat Nat) := by
   intro i s h; cases h
 
+end
+
+namespace Ex0
+def h (v : Bytes) : Nat := v.foldl (fun a x => a * 256 + x.toNat) 1
+def n (a b : Nat) : Nat := 1000 * a + b + 7
+end Ex0
+
+/-! ### the STH as served: head and signature together, over whole histories -/
+
+section
+variable {Hash Msg Sig : Type} [DecidableEq Msg]
+variable (leafH : Bytes → Hash) (nodeH : Hash → Hash → Hash) (emptyH : Hash)
+
+/-- a history of the whole front end: backend operations and get-sth calls (each with the randomness its signature would use) -/
+inductive FOp where
+  | op (o : Op)
+  | getSTH (nonce : Nat)
+
+/-- get-sth: fetch the root, build the head (`headOf`), serialise it (`ser` = `SerializeSTHSignatureInput`) and sign it through the cache. -/
+def frun (ser : Head Hash → Msg) (sign : Msg → Nat → Sig) :
+    Backend → Cache Msg Sig → List FOp → List (Backend × Head Hash × Sig)
+  | _, _, [] => []
+  | b, c, .op o :: rest => frun ser sign (step b o) c rest
+  | b, c, .getSTH n :: rest =>
+    let h := served leafH nodeH emptyH b
+    let r := signHead sign c (ser h) n
+    (b, h, r.2) :: frun ser sign b r.1 rest
+
+/-- **Every STH served verifies and is faithful — one statement.** In any history of submissions,
+    sequencing steps and get-sth calls, every answer `(head, signature)` of get-sth is the head of the
+    backend state at that moment (`served`, hence `sth_faithful` applies to it) **and** its signature
+    verifies under the log key over the serialisation of *that very head*. `ser` is any serialiser,
+    `sign`/`verify` any scheme with `hsign` (the primitive is trusted). -/
+theorem sth_served_verifies (ser : Head Hash → Msg) (sign : Msg → Nat → Sig) (verify : Msg → Sig → Bool)
+    (hsign : ∀ m n, verify m (sign m n) = true) (ops : List FOp) :
+    ∀ (b : Backend) (c : Cache Msg Sig), CacheOK verify c →
+      ∀ x ∈ frun leafH nodeH emptyH ser sign b c ops,
+        x.2.1 = served leafH nodeH emptyH x.1 ∧ verify (ser x.2.1) x.2.2 = true := by
+  induction ops with
+  | nil => intro b c _ x hx; simp [frun] at hx
+  | cons o rest ih =>
+    intro b c hc x hx
+    cases o with
+    | op o => exact ih _ c hc x hx
+    | getSTH n =>
+      simp only [frun, List.mem_cons] at hx
+      have key := signHead_ok sign verify hsign c (ser (served leafH nodeH emptyH b)) n hc
+      rcases hx with rfl | hx
+      · exact ⟨rfl, key.1⟩
+      · exact ih b _ key.2 x hx
+
+/-- the third call hits the cache: same input, the signature made with nonce 2 is served again -/
+example : (frun Ex0.h Ex0.n 0 (fun (h : Head Nat) => (h.size, h.ts)) (fun m k => (m, k))
+    (Backend.init 5000000) none [.getSTH 1, .op (.submit ⟨[1], [], [1]⟩), .op (.sequence 1 7000000), .getSTH 2, .getSTH 3]).map (·.2.2) =
+    [((0, 5), 1), ((1, 7), 2), ((1, 7), 2)] := by decide
 end
 
 section
@@ -493,6 +553,112 @@ theorem valuesIdentify_x509 (b : Backend) (idOf : Bytes → Bytes)
 
 example : encLeaf (.x509 [0x30, 0x00]) 1234 = [0,0, 0,0,0,0,0,0,4,210, 0,0, 0,0,2, 0x30,0x00, 0,0] := by decide
 
+/-- **What holds without `ValuesIdentify`.** Once sequenced at index `i`, the client-computed hash of
+    the stored leaf is found at the **lowest** index `j ≤ i` whose leaf *value* equals the stored one
+    (no leaf-hash collision among stored values assumed), with a verifying path. Whether `j = i`, and
+    whether the entry at `j` carries the submitted certificate in its `extra_data`, is exactly
+    `ValuesIdentify` (see `same_tbs_counterexample`). -/
+theorem sct_found_lowest (b : Backend) (i : Nat) (stored : Leaf) (hi : b.leaves[i]? = some stored) (h63 : b.leaves.length < 2 ^ 63)
+    (hinj : ∀ x ∈ b.leaves, ∀ y ∈ b.leaves, leafH x.value = leafH y.value → x.value = y.value) :
+    ∃ j p l', getProofByHash leafH nodeH emptyH b (leafH stored.value) b.leaves.length = some (j, p) ∧ j ≤ i ∧
+      b.leaves[j]? = some l' ∧ l'.value = stored.value ∧
+      verifyInclusion nodeH j b.leaves.length (leafH stored.value) p (b.root leafH nodeH emptyH) = true := by
+  obtain ⟨j, p, hp, hji, ⟨l', hl', hh⟩, hver⟩ := proofByHash_ok leafH nodeH emptyH b [] i stored hi h63
+  simp only [run] at hp
+  exact ⟨j, p, l', hp, hji, hl', hinj l' (List.mem_of_getElem? hl') stored (List.mem_of_getElem? hi) hh, hver⟩
+
+/-- **The reachable state that `ValuesIdentify` excludes** (finding C06-1): two submissions with
+    different identity hashes (two precertificates that differ only in their signature bytes) but the
+    same `MerkleTreeLeaf` bytes (same TBS, same issuer, same millisecond). Both are stored; the leaf
+    hash of the second is found at the index of the first, whose `extra_data` is the *other*
+    precertificate; two indices carry the hash. -/
+theorem same_tbs_counterexample :
+    let p1 : Leaf := ⟨[7], [1], [10]⟩
+    let p2 : Leaf := ⟨[7], [2], [11]⟩
+    let b := run (Backend.init 0) [.submit p1, .submit p2, .sequence 2 5]
+    b.leaves = [p1, p2] ∧ ¬ ValuesIdentify b ∧
+    (getProofByHash Ex0.h Ex0.n 0 b (Ex0.h p2.value) 2).map (·.1) = some 0 ∧
+    (∃ p, getEntryAndProof Ex0.h Ex0.n 0 b 0 2 = some (p1.value, p1.extra, p)) := by
+  intro p1 p2 b
+  have hb : b.leaves = [p1, p2] := by decide
+  refine ⟨hb, ?_, by decide, ?_⟩
+  · intro h
+    have := h p1 (by decide) p2 (by decide) rfl
+    simp [p1, p2] at this
+  · obtain ⟨l, p, h1, h2, _⟩ := inclusion_at Ex0.h Ex0.n 0 b 0 2 (by omega) (by rw [hb]; simp) (by omega)
+      (by rw [hb]; intro l hl; simp [p1, p2] at hl; rcases hl with rfl | rfl <;> simp)
+    rw [hb] at h2
+    simp at h2
+    subst h2
+    exact ⟨p, h1⟩
+
+/-- the leaf of an X.509 submission: `MerkleTreeLeaf` of the certificate at some timestamp, identity hash a function of the certificate -/
+def ShapedX509 (idOf : Bytes → Bytes) (l : Leaf) : Prop :=
+  ∃ c t, l.value = encLeaf (.x509 c) t ∧ l.idHash = idOf c ∧ c.length < 2 ^ 24 ∧ t < 2 ^ 64
+
+/-- **sct_findable for X.509 histories — no hypothesis on the final state.** All submissions of the
+    history are X.509-shaped (leaf = `encLeaf (.x509 cert) ts`, identity hash `idOf cert` with `idOf`
+    injective — CTFE: SHA-256 of the certificate). A certificate `c` is submitted at time `t` (fresh or
+    duplicate). Then the stored leaf the SCT is built from is the leaf **of that certificate** at some
+    timestamp `t0` (the SCT's): the hash a client computes from `c` and `t0` alone,
+    `leafH (encLeaf (.x509 c) t0)`, is the stored leaf's hash; once sequenced it is found at exactly
+    one index with a verifying path. -/
+theorem sct_findable_x509 (idOf : Bytes → Bytes) (hid : ∀ a b, idOf a = idOf b → a = b)
+    (ts : Nat) (ops1 ops2 : List Op) (c : Bytes) (t : Nat) (extra : Bytes)
+    (hc : c.length < 2 ^ 24) (ht : t < 2 ^ 64)
+    (h1 : ∀ x, Op.submit x ∈ ops1 → ShapedX509 idOf x) (h2 : ∀ x, Op.submit x ∈ ops2 → ShapedX509 idOf x) :
+    let cand : Leaf := ⟨encLeaf (.x509 c) t, extra, idOf c⟩
+    let b0 := run (Backend.init ts) ops1
+    let stored := (b0.queue cand).2
+    let b2 := run (b0.queue cand).1 ops2
+    ∃ t0, stored.value = encLeaf (.x509 c) t0 ∧ t0 < 2 ^ 64 ∧
+      (stored ∈ b2.leaves → b2.leaves.length < 2 ^ 63 →
+        (∀ x ∈ b2.all, ∀ y ∈ b2.all, leafH x.value = leafH y.value → x.value = y.value) →
+        ∃ i p, b2.leaves[i]? = some stored ∧
+          getProofByHash leafH nodeH emptyH b2 (leafH (encLeaf (.x509 c) t0)) b2.leaves.length = some (i, p) ∧
+          verifyInclusion nodeH i b2.leaves.length (leafH (encLeaf (.x509 c) t0)) p (b2.root leafH nodeH emptyH) = true ∧
+          ∀ j l', b2.leaves[j]? = some l' → leafH l'.value = leafH (encLeaf (.x509 c) t0) → j = i) := by
+  intro cand b0 stored b2
+  have hcand : ShapedX509 idOf cand := ⟨c, t, rfl, rfl, hc, ht⟩
+  -- everything held is X.509-shaped
+  have hb0 : ∀ x ∈ b0.all, ShapedX509 idOf x := by
+    intro x hx
+    rcases mem_all_run ops1 _ x hx with h | h
+    · simp [Backend.all, Backend.init] at h
+    · exact h1 x h
+  have hb1 : ∀ x ∈ (b0.queue cand).1.all, ShapedX509 idOf x := by
+    intro x hx
+    rcases all_queue b0 cand with ⟨e, _, _⟩ | ⟨e, _, _⟩
+    · rw [e] at hx; exact hb0 x hx
+    · rw [e, List.mem_append, List.mem_singleton] at hx
+      rcases hx with hx | hx
+      · exact hb0 x hx
+      · rw [hx]; exact hcand
+  have hb2 : ∀ x ∈ b2.all, ShapedX509 idOf x := by
+    intro x hx
+    rcases mem_all_run ops2 _ x hx with h | h
+    · exact hb1 x h
+    · exact h2 x h
+  -- the stored leaf is the leaf of the submitted certificate
+  have hst : stored ∈ (b0.queue cand).1.all ∧ stored.idHash = idOf c := by
+    rcases all_queue b0 cand with ⟨e, hm, hi⟩ | ⟨e, hs, _⟩
+    · exact ⟨by rw [e]; exact hm, hi⟩
+    · refine ⟨by rw [e]; show (b0.queue cand).2 ∈ _; rw [hs]; simp, ?_⟩
+      show (b0.queue cand).2.idHash = _; rw [hs]
+  obtain ⟨c', t0, hv, hi', _, ht0⟩ := hb1 stored hst.1
+  have hcc : c' = c := hid c' c (by rw [← hi', hst.2])
+  subst hcc
+  refine ⟨t0, hv, ht0, ?_⟩
+  intro hmem h63 hinj
+  have hvi : ValuesIdentify b2 := valuesIdentify_x509 b2 idOf (by
+    intro x hx
+    obtain ⟨cx, tx, a, b, c1, d⟩ := hb2 x hx
+    exact ⟨cx, tx, a, b, c1, d⟩)
+  have := (sct_findable_partial leafH nodeH emptyH ts ops1 ops2 cand).2 hmem h63 hinj hvi
+  rw [← hv]
+  exact this
+
+
 /-- A duplicate submission is answered from the stored leaf, so its SCT (built from `stored`) is the
     SCT of the original submission and nothing new is queued. -/
 theorem duplicate_returns_stored (b : Backend) (cand old : Leaf) (h : b.find cand.idHash = some old) :
@@ -524,5 +690,18 @@ example : verifyConsistency Ex.n 1 2 [Ex.h [2]] (Ex.n (Ex.h [1]) (Ex.h [2])) (Ex
   simp [h2]
   rw [rootsFromCons]
   simp [Ex.n, Ex.h]
+
+/-! ### the theorems applied to concrete histories (their hypotheses are jointly satisfiable) -/
+
+example := consistency_links Ex0.h Ex0.n 0 (Backend.init 0) Ex.hist [.read] (by decide)
+example := inclusion_ok Ex0.h Ex0.n 0 (run (Backend.init 1) Ex.hist) [.read] 1 (by decide) (by decide)
+  (by intro l hl; have : (run (run (Backend.init 1) Ex.hist) [.read]).leaves = [Ex.c1, Ex.c2] := by decide
+      rw [this] at hl; simp at hl; rcases hl with rfl | rfl <;> simp [Ex.c1, Ex.c2])
+example := sct_findable_x509 Ex0.h Ex0.n 0 id (fun _ _ h => h) 0
+  [.submit ⟨encLeaf (.x509 [1]) 5, [], [1]⟩] [.sequence 5 9] [2] 7 [] (by decide) (by decide)
+  (by intro x hx; simp at hx; subst hx; exact ⟨[1], 5, rfl, rfl, by decide, by decide⟩)
+  (by intro x hx; simp at hx)
+/-- the duplicate case of `sct_findable_partial`: the second submission of identity `[1]` is answered from the stored leaf -/
+example := (sct_findable_partial Ex0.h Ex0.n 0 1 [.submit Ex.c1] [.sequence 1 5] Ex.c1').1
 
 end C06
